@@ -10,7 +10,7 @@ from .devices import open_device
 from .formats import file_formats
 from .metacommand_impl import get_as_int
 from . import operators
-from .types import Instruction, Label, Assignment, InstructionPointer, WordList, ParenthesizedExpression
+from .types import Instruction, Label, Assignment, InstructionPointer, WordList, ParenthesizedExpression, CodeBlock
 from . import reports
 
 
@@ -246,6 +246,18 @@ class Compiler:
 
 
     def compile_insn(self, insn, state):
+        if insn.operands and isinstance(insn.operands[-1], CodeBlock):
+            # The parser attaches '{ ... }' to whatever stands before it
+            command = builtin_commands.get(insn.name.name) or builtin_commands.get("." + insn.name.name)
+            if not getattr(command, "takes_code_block", False):
+                block = insn.operands[-1]
+                reports.error(
+                    "wrong-operands",
+                    (block.ctx_start, block.ctx_end, f"'{insn.name.name}' does not take a code block"),
+                    (insn.name.ctx_start, insn.name.ctx_end, "The instruction started here")
+                )
+                return None
+
         if insn.name.name in builtin_commands:
             return builtin_commands[insn.name.name].compile_insn(state, insn)
         elif "." + insn.name.name in builtin_commands:
